@@ -66,6 +66,9 @@ def pendingFlagsC (x : NodeC N) : List Bool :=
 
 inductive InputC (N : Nat)
 | hup | prop (vs : List Nat) | selfAck | beat | restart (a : Nat) | applyTo (k : Nat) | recv (m : Msg1 N)
+/-- the transport's reports (`RawNode.ReportSnapshot` / `ReportUnreachable`), as in `RS.Input`: they move only the leader's `Progress`
+    bookkeeping (`RS.reportProg`), nothing of the node -/
+| snapStatus (src : Fin N) (failed : Bool) | unreachable (src : Fin N)
 
 /-- apply ONE more entry -/
 def applyOneC (c0 : RQJ.Config) (i : Fin N) (x : NodeC N) : NodeC N :=
@@ -132,6 +135,8 @@ def handleC (c0 : RQJ.Config) (i : Fin N) (x : NodeC N) : InputC N â†’ NodeC N Ã
 | .selfAck =>
     if x.n.role = .leader then ({ x with n := maybeCommitC (cfgOf c0 x) (ackC (cfgOf c0 x) x.n i x.n.log.length) }, []) else (x, [])
 | .beat => (x, [])
+| .snapStatus _ _ => (x, [])
+| .unreachable _ => (x, [])
 | .restart a => ({ n := stepDownN x.n, applied := a, pend := 0 }, [])
 | .applyTo k => (applyToC c0 i x k, [])
 | .recv m =>
